@@ -46,7 +46,11 @@ META = {
 POINTS = ["idle", "write-error", "after-write", "after-echo", "handshake", "after-done"]
 
 
-def h_tridonic_loss(ctx, point, two_callers, inflight=False):
+def h_tridonic_loss(ctx, point, two_callers, inflight=False, dt=False):
+    """dt: the first caller's command needs a device type (ENABLE DEVICE TYPE 6 goes out first and completes;
+    a loss 'after-write' / 'after-echo' then strikes the command frame itself).  In that variant a report for
+    the lost command (old sequence number) may also arrive late, after the reconnection."""
+    import dali.gear.led as led
     with rigs.HidRig(ctx, 17) as rig:
         limit = [None, 0, 1, 3][ctx.fresh_choice("limit", 4)]
         exceptions = ctx.fresh_bool("exceptions")
@@ -55,11 +59,13 @@ def h_tridonic_loss(ctx, point, two_callers, inflight=False):
         again = ctx.fresh_bool("second_loss") if point in ("after-echo", "after-write") else False
         v1, v2 = ctx.fresh("v1", 0, 255), ctx.fresh("v2", 0, 255)
         out = {"status": [], "opens": []}
-        c1 = gg.QueryActualLevel(A.GearShort(1))
+        c1 = led.QueryGearType(A.GearShort(1)) if dt else gg.QueryActualLevel(A.GearShort(1))
         c2 = gg.QueryMaxLevel(A.GearShort(2))
+        stale = ctx.fresh_bool("late_report_of_lost_command") if dt else False
+        wire = []
 
         async def main(loop):
-            state = {"lost": 0, "sends": 0, "handshakes": 0}
+            state = {"lost": 0, "sends": 0, "handshakes": 0, "lost_seq": None}
             real_open = rig.os.open
 
             def open_(path, flags):
@@ -97,14 +103,27 @@ def h_tridonic_loss(ctx, point, two_callers, inflight=False):
                 state["sends"] += 1
                 s = data[1]
                 fr = list(data[4:8])
+                wire.append((fr[2] << 8) | fr[3])
                 val = v1 if fr[2] == 0x03 else v2          # address byte of GearShort(1) query = 0x03
                 first_loss = state["lost"] == 0
+                if dt and fr[2] == 0xC1:
+                    # ENABLE DEVICE TYPE: transmitted, no answer
+                    loop.call_soon(rig.deliver, loop, d, rigs.tridonic_report(0x12, 0x73, fr, s))
+                    loop.call_soon(rig.deliver, loop, d, rigs.tridonic_report(0x12, 0x71, [0, 0, 0, 0], s))
+                    return
+                if stale and not first_loss and state["lost_seq"] is not None:
+                    # what the interface still had to say about the command that was lost
+                    loop.call_soon(rig.deliver, loop, d, rigs.tridonic_report(0x12, 0x72, [0, 0, 0, 0xEE],
+                                                                             state["lost_seq"]))
+                    state["lost_seq"] = None
                 if point == "after-write" and first_loss:
                     if not inflight or state["sends"] == 2:
+                        state["lost_seq"] = s
                         loop.call_soon(lose)
                     return
                 loop.call_soon(rig.deliver, loop, d, rigs.tridonic_report(0x12, 0x73, fr, s))
                 if point == "after-echo" and first_loss:
+                    state["lost_seq"] = s
                     loop.call_soon(lose)
                     return
                 loop.call_soon(rig.deliver, loop, d, rigs.tridonic_report(0x12, 0x72, [0, 0, 0, val], s))
@@ -188,11 +207,18 @@ def h_tridonic_loss(ctx, point, two_callers, inflight=False):
                 good = isinstance(payload, CommunicationError) and exceptions and in_flight
                 ctx.prove(good, "%s caller got %r" % (name, payload), key=tag + "/exception:" + name)
                 continue
-            ok = type(payload) is C.NumericResponseMask and payload.raw_value is not None
+            ok = isinstance(payload, C.Response) and payload.raw_value is not None and not payload.raw_value.error
             ctx.prove(ok and E.eq(payload.raw_value.as_integer, val),
                       "%s caller completed with %r, not its own answer" % (name, payload), key=tag + "/answer:" + name)
         if in_flight and exceptions and out["t1"][0] == "ok" and not (point == "write-error"):
             ctx.fail("in-flight send completed although the gateway was lost before its answer", key=tag + "/no-error")
+        if dt:
+            # every transmission of the device-type command (also the one repeated after the reconnection)
+            # directly follows its ENABLE DEVICE TYPE
+            for k, fv in enumerate(wire):
+                if fv == 0x03ED:
+                    ctx.prove(k > 0 and wire[k - 1] == 0xC106, "the device-type command went out without its ENABLE "
+                              "DEVICE TYPE (wire: %s)" % [hex(x) for x in wire], key=tag + "/edt-missing")
         # ---- nothing left taken
         ctx.prove(out["outstanding"] == 0, "%d in-flight slot(s) left" % out["outstanding"], key=tag + "/slots")
         pend = sum(1 for x in (out["t1"], out["t2"], out.get("t3")) if x and x[0] == "pending")
@@ -564,6 +590,9 @@ def cases(tier):
         cs.append(Case("tridonic-%s" % p, h_tridonic_loss, {"point": p, "two_callers": False}, install=inst))
         if p in ("after-echo", "write-error", "idle") or tier != "quick":
             cs.append(Case("tridonic-%s-2" % p, h_tridonic_loss, {"point": p, "two_callers": True}, install=inst))
+    for p in ("after-write", "after-echo"):
+        cs.append(Case("tridonic-%s-dt" % p, h_tridonic_loss, {"point": p, "two_callers": False, "dt": True},
+                       install=inst))
     cs.append(Case("tridonic-after-write-inflight", h_tridonic_loss,
                    {"point": "after-write", "two_callers": True, "inflight": True}, install=inst))
     for p in ("write-error", "after-write"):
